@@ -28,7 +28,14 @@ def margin_rule_early_exits(ctx) -> List[Dict[str, Any]]:
             continue
         ent: Dict[str, Any] = {"node": n, "table": None, "fn": fn}
         t = n.test
-        if isinstance(t, ast.Call) and A.call_name(t) == "all" and len(t.args) == 1 \
+        # tests over the computed margin level itself are part of the raise guard, not a frame-rule exit
+        names = {x.id for x in ast.walk(t) if isinstance(x, ast.Name)}
+        lvl = {s.target.id for s in A.stores(fn) if isinstance(s.target, ast.Name) and isinstance(s.node, ast.Assign)
+               and isinstance(s.node.value, ast.Call) and (A.call_name(s.node.value) or "").endswith("._calculate_margin_level")}
+        if names and names <= (lvl | {"Decimal"}):
+            continue
+        ent["quantifier"] = A.call_name(t) if isinstance(t, ast.Call) else None
+        if isinstance(t, ast.Call) and A.call_name(t) in ("all", "any") and len(t.args) == 1 \
                 and isinstance(t.args[0], (ast.GeneratorExp, ast.ListComp)) and len(t.args[0].generators) == 1:
             gen = t.args[0].generators[0]
             elt = t.args[0].elt
